@@ -37,6 +37,13 @@ def records(tier):
             recs.append({"genome": "A", "genes": [W.place(a, offs[0]), W.place(b, offs[1])], "fcs": []})
     for a, b, c in itertools.product(menu, repeat=3):
         recs.append({"genome": "A", "genes": [W.place(a, 1), W.place(b, 14), W.place(c, 27)], "fcs": []})
+    # locus tags that differ only in letter case are different tags: grouping must not confuse or split them
+    CASE_TAGS = ("ab_1", "AB_1", "Ab_1")
+    for a, b in itertools.product(menu, repeat=2):
+        for offs in W.ARR2:
+            recs.append({"genome": "A", "genes": [dict(W.place(a, offs[0]), lt=CASE_TAGS[0]), dict(W.place(b, offs[1]), lt=CASE_TAGS[1])], "fcs": []})
+    for a, b, c in itertools.product(menu[:3], repeat=3):
+        recs.append({"genome": "A", "genes": [dict(W.place(a, 1), lt=CASE_TAGS[1]), dict(W.place(b, 14), lt=CASE_TAGS[0]), dict(W.place(c, 27), lt=CASE_TAGS[2])], "fcs": []})
     out = []
     for rec in recs:
         for flavour in W.FLAVOURS:
